@@ -41,41 +41,55 @@ func c15a(c *Ctx) {
 			continue
 		}
 		key := r.fn + "/default-scope"
-		calls := callsToIn(fn, psm)
-		if len(calls) != 1 {
-			c.Bad(key, c.W.FuncPos(fn), fmt.Sprintf("expected exactly one call of parseScopeModifier, found %d", len(calls)))
-			continue
-		}
-		call := calls[0]
-		got, ok := strConst(call.Common().Args[1])
-		if !ok || got != r.def {
-			c.Bad(key, c.W.Pos(call.Pos()), fmt.Sprintf("default scope passed is %q, README says %s", got, r.def))
-			continue
-		}
-		// the result must be what is stored in <stmt>.Scope of the statement that is returned
-		want := c.term(fn, call.(ssa.Value)) + "#0"
-		found := false
+		// the value stored in <stmt>.Scope of the node that is returned: followed backwards (also
+		// through a header-parsing helper) it must be the result of parseScopeModifier(<default>)
+		var stored ssa.Value
 		detail := ""
 		for _, a := range allocsOf(fn, "ast", r.typ) {
 			for _, ret := range returnsOf(fn) {
 				if !isSuccessReturn(ret) || len(ret.Results) == 0 || ret.Results[0] != ssa.Value(a) {
 					continue
 				}
-				got := c.fieldAtUse(fn, a, "Scope", ret)
-				if got == want {
-					found = true
-				} else {
-					detail = fmt.Sprintf("returned %s has Scope = %s, expected the parseScopeModifier result %s", r.typ, got, want)
+				want := c.fieldAtUse(fn, a, "Scope", ret)
+				for _, st := range storesToField(fn, "ast", r.typ, "Scope") {
+					if c.term(fn, st.Val) == want {
+						stored = st.Val
+					}
+				}
+				if stored == nil {
+					detail = fmt.Sprintf("returned %s has Scope = %s, which is not a value stored from a scope-modifier parse", r.typ, want)
 				}
 			}
 		}
-		if found && detail == "" {
-			c.OK(key, c.W.Pos(call.Pos()), fmt.Sprintf("parseScopeModifier(%s) result stored in %s.Scope of the returned node", r.def, r.typ))
-		} else {
+		if stored == nil {
 			if detail == "" {
 				detail = "no successful return of a " + r.typ + " whose Scope is the parseScopeModifier result"
 			}
-			c.Bad(key, c.W.Pos(call.Pos()), detail)
+			c.Bad(key, c.W.FuncPos(fn), detail)
+			continue
+		}
+		ok := true
+		n := 0
+		for _, o := range c.originsOf(fn, stored, psm, 2) {
+			n++
+			if o.call == nil || callee(o.call) != psm || o.idx != 0 {
+				ok = false
+				detail = fmt.Sprintf("%s.Scope can be %s, which is not the result of parseScopeModifier", r.typ, pretty(c.term(o.fn, o.v)))
+				continue
+			}
+			got, isC := strConst(o.call.Common().Args[1])
+			if !isC || got != r.def {
+				ok = false
+				detail = fmt.Sprintf("default scope passed is %q, README says %s", got, r.def)
+			}
+		}
+		if ok && n > 0 {
+			c.OK(key, c.W.FuncPos(fn), fmt.Sprintf("parseScopeModifier(%s) result stored in %s.Scope of the returned node", r.def, r.typ))
+		} else {
+			if detail == "" {
+				detail = "cannot trace the stored scope to a parseScopeModifier call"
+			}
+			c.Bad(key, c.W.FuncPos(fn), detail)
 		}
 	}
 }
